@@ -49,8 +49,10 @@ class SchemaField:
         Raises:
             FIXMessageError: raised if validation failed
         """
-        assert isinstance(value, str), "value must be a string"
-        assert value, "empty value"
+        if not isinstance(value, str) or not value:
+            raise FIXMessageError(
+                f"{self} value must be a non-empty string, got {value!r}"
+            )
 
         if self.values:
             if value not in self.values:
